@@ -5,11 +5,11 @@ EXTENDS MediaCache, Json, FiniteSets
 VARIABLE h
 CONSTANT Depth
 
-MCCTypes == {"json", "json_charset", "vnd_json", "form", "form_charset", "text", "none"}
-MCHandlerOf == [c \in MCCTypes |-> CASE c \in {"json", "json_charset", "vnd_json", "none"} -> "json"
+MCCTypes == {"json", "json_charset", "vnd_json", "custom", "form", "form_charset", "text", "none"}
+MCHandlerOf == [c \in MCCTypes |-> CASE c \in {"json", "json_charset", "vnd_json", "custom", "none"} -> "json"
                                      [] c \in {"form", "form_charset"} -> "form"
                                      [] OTHER -> "none"]
-MCBodyKinds == {"empty", "valid", "truncated", "badenc"}
+MCBodyKinds == {"empty", "valid", "truncated", "badenc", "hookfail"}
 (* PEP 3333 needs CONTENT_LENGTH to bound wsgi.input (wsgi.input_terminated is out of scope) *)
 MCFramings == [s \in {"wsgi", "asgi"} |-> IF s = "wsgi" THEN {"length"} ELSE {"length", "chunked"}]
 
